@@ -92,7 +92,6 @@ Inductive tev :=
 | TOpDel (id : nat)                            (* the tracked cleanup operation state of source id was destroyed *)
 | TCall (f : fn) (x : Z)                       (* transform function *)
 | TPred (p : pred) (x : Z)                     (* filter predicate *)
-| TFeed (acc x : Z)                            (* the consumer's function got element x (acc = 0 for for_each) *)
 | TFire                                        (* the armed root token requested stop inside a callback registration *)
 | TUaf (site : nat).   (* use of a destroyed object.  0: stop_immediately's start() goes on through its destroyed
                           operation (finding 9); 1: stop_immediately's cleanup receiver_wrapper::set_error forwards an
@@ -858,6 +857,7 @@ Fixpoint ops_of (vr : variant) (e : stexpr) : ops :=
 (* ---- the consumer: reduce_stream.hpp ------------------------------------------------------------------- *)
 Inductive xev :=
 | XT (t : tev)
+| XFeed (acc x : Z)        (* the consumer's function got element x (acc = 0 for for_each) *)
 | XRoot (o : outcome)      (* the root receiver completed *)
 | XSkip.                   (* script entry that did not apply *)
 
@@ -869,10 +869,10 @@ Record rstate := { x_st : sst; x_acc : Z; x_ph : cphase; x_stopped : bool; x_arm
 Definition cons_init (c : cons) : Z := match c with CReduce i _ => i | CForEach _ => 0 end.
 
 (* _next_receiver::set_value l.233-250: the reducer runs after the next-op was destroyed *)
-Definition feed (c : cons) (acc x : Z) : list tev * (Z + Z) :=
+Definition feed (c : cons) (acc x : Z) : list xev * (Z + Z) :=
   match c with
-  | CReduce _ f => ([TFeed acc x], rfn_apply f acc x)
-  | CForEach g => ([TFeed 0 x], match fn_apply g x with inl _ => inl acc | inr e => inr e end)
+  | CReduce _ f => ([XFeed acc x], rfn_apply f acc x)
+  | CForEach g => ([XFeed 0 x], match fn_apply g x with inl _ => inl acc | inr e => inr e end)
   end.
 
 Definition x_push (rs : rstate) (ev : list xev) : rstate :=
@@ -906,7 +906,7 @@ Fixpoint pump (fuel : nat) (c : cons) (I : ops) (rs : rstate) (r : res) {struct 
   match r_out r, x_ph rs with
   | Some (KN, OVal v), CNexting =>
       let (ev, y) := feed c (x_acc rs) v in
-      let rs2 := x_push rs1 (map XT ev) in
+      let rs2 := x_push rs1 ev in
       match y with
       | inl acc' =>
           let rs3 := {| x_st := x_st rs2; x_acc := acc'; x_ph := CNexting; x_stopped := x_stopped rs2;
